@@ -75,4 +75,44 @@ def genInternal (fn : String) (st : State) : State :=
   | some p => p.2.foldl (fun st q => setInternal st q.1 (parseDispName q.2)) st
   | none => st
 
+/-! ## wave 3: the option selection of `TrapSet::enter_subshell`, `stack::Frame`, `in_trap` -/
+
+def parseSubOpt (s : String) : SubOpt :=
+  if s == "KeepInternalDisposition" then .keep else if s == "Ignore" then .ignore else .clear
+
+/-- a flag of a generated row: 0 / 1 = the first / second `bool` parameter of `enter_subshell`,
+    2 = `state.internal_disposition() != Disposition::Default` -/
+def subFlag (g : GrandState) (ii ks : Bool) (k : Nat) : Bool :=
+  if k = 0 then ii else if k = 1 then ks else g.internal != .default
+
+/-- the generated rows with their option parsed -/
+def genSubshellRows : List (List Nat × List Nat × SubOpt) :=
+  TrapTables.subshellRules.map fun r => (r.1, r.2.1, parseSubOpt r.2.2)
+
+/-- the `if … else if … else` chain of the `Condition::Signal` arm, row by row -/
+def genSubshellChain (cond : Nat) (g : GrandState) (ii ks : Bool) (els : SubOpt) :
+    List (List Nat × List Nat × SubOpt) → SubOpt
+  | [] => els
+  | (sigs, flags, opt) :: rest =>
+    if sigs.contains cond && flags.all (subFlag g ii ks) then opt
+    else genSubshellChain cond g ii ks els rest
+
+/-- `let option = match cond { Exit => …, Signal(signal) => if … }` as the generated tables say -/
+def genSubshellOption (cond : Nat) (g : GrandState) (ii ks : Bool) : SubOpt :=
+  if cond = 0 then parseSubOpt TrapTables.subshellExit
+  else genSubshellChain cond g ii ks (parseSubOpt TrapTables.subshellElse) genSubshellRows
+
+/-- the trailing `if <flag> { for signal in [..] { Vacant => GrandState::ignore } }` -/
+def genSubshellTrailing (st : State) (ii ks : Bool) : State :=
+  if (if TrapTables.subshellTrailing.2 = 0 then ii else ks) then
+    TrapTables.subshellTrailing.1.foldl ignoreIfVacant st
+  else st
+
+def Frame.variant : Frame → String
+  | .loop => "Loop" | .subshell => "Subshell" | .condition => "Condition" | .builtin => "Builtin"
+  | .dotScript => "DotScript" | .trap _ => "Trap" | .initFile => "InitFile"
+
+/-- one frame of every variant, in the model's declaration order -/
+def Frame.samples : List Frame := [.loop, .subshell, .condition, .builtin, .dotScript, .trap 0, .initFile]
+
 end YashModel.Trap
